@@ -51,6 +51,7 @@ def is_vshift(e):
 class Imp:
     def __init__(self):
         self.loops = 0
+        self.corr_calls = []
 
     # ---- expressions -> (text, type, guards)
     def ex(self, e, env):
@@ -118,6 +119,9 @@ class Imp:
                 m, tm, gm = self.ex(args[1], env)
                 if tl != "Nat" or tm != "Nat":
                     raise Unsupported("vcorr_pearson arguments")
+                # the call itself, read off the source: `self.titer().vcorr_pearson(self.titer().vshift(L as i32, None), mp)`
+                comp = "GenAgg.vcorr_pearson.run sqrt xs (GenMap.vshift.run xs (Int.ofNat lag) none) mp"
+                self.corr_calls.append(comp)
                 return f"(corrAt {l} {m})", "F", gl + gm
             r, tr, g = self.ex(recv, env)
             if name == "pow" and len(args) == 1 and tr == "Nat":
@@ -278,6 +282,14 @@ def translate(sig, body_src):
          "def run (corrAt : Nat → Nat → Option Rat) (len : Nat) (min_periods : Option Nat) (fuel : Nat) : Run Nat :=",
          indent(txt, 2),
          f"def loops : Nat := {im.loops}",
+         "/-- the lag autocorrelation as the source computes it: `vcorr_pearson` (aggs.py) of the series and its",
+         "`vshift(lag as i32, None)` (maps.py) -/",
+         "def corrSrc (sqrt : Rat → Rat) (xs : List (Option Rat)) (lag mp : Nat) : Option Rat :=",
+         "  " + (im.corr_calls[0] if im.corr_calls and all(c == im.corr_calls[0] for c in im.corr_calls) else "none"),
+         f"def corrCalls : Nat := {len(im.corr_calls)}",
+         "/-- `half_life` with that autocorrelation and `len = self.len()` -/",
+         "def runSrc (sqrt : Rat → Rat) (xs : List (Option Rat)) (min_periods : Option Nat) (fuel : Nat) : Run Nat :=",
+         "  run (corrSrc sqrt xs) xs.length min_periods fuel",
          "def parsed : Bool := true",
          "end half_life"]
     return "\n".join(L)
